@@ -134,7 +134,8 @@ fn check_line(stats: &mut Stats, g: &G, edges: &[Edge], refs: &HashMap<GraphEdge
     let total: usize = want.iter().sum();
     stats.count(&format!("crossings.{}", if total > 6 { "7_or_more".to_string() } else { total.to_string() }));
     if edges.iter().enumerate().any(|(i, e)| e.shared && want[i] > 0) { stats.count("line_crosses_shared_edge"); }
-    let cfg = format!("{}.{}{}", gclass, lclass, if min_sin < 0.05 { ".glancing" } else { "" });
+    // keys name the graph and line classes and the input itself (a finding listed for one input does not cover another)
+    let cfg = format!("{}.{}{}.input_{:016x}", gclass, lclass, if min_sin < 0.05 { ".glancing" } else { "" }, fnv(&format!("{:?} {}", line, detail())));
     let cols = match run_caught(stats, PROP, "ray_collisions", detail, || g.ray_collisions(&line)) { Some(c) => c, None => return };
     stats.count("lines_evaluated");
     let show = || format!("line={:?} collisions(edge,t,line_t,pos)={:?} expected_crossings_per_edge={:?} {}", line, cols.iter().map(|(c, t, s, p)| (refs.get(&c.edge()).cloned(), *t, *s, *p)).collect::<Vec<_>>(), want, detail());
